@@ -219,13 +219,15 @@ class Pdur(FilterPattern):  # Was Pfindur.
         delta = next_elapsed = remaining = None
         try:
             while True:
-                inevent = stream.next(inevent)
+                inevent = evt.event(stream.next(inevent))  # as_event
                 delta = inevent('delta')
                 next_elapsed = elapsed + float(delta)
                 if bi.roundup(next_elapsed, tolerance) >= local_dur:
                     remaining = local_dur - elapsed
                     inevent = inevent.copy()
-                    inevent['delta'] = type(delta)(remaining)
+                    if isinstance(delta, evt.Rest):
+                        remaining = evt.Rest(remaining)
+                    inevent['delta'] = remaining
                     return (yield inevent)
                 elapsed = next_elapsed
                 inevent = yield inevent
